@@ -150,20 +150,29 @@ def recording_classes(log):
 
 
 def partial_classes(rng, log):
+    """two partial renderers (SQL side, DBML side), each derived either from BaseRenderer or from the matching
+    default renderer, with their OWN incomplete handler table -> (sql class, dbml class, handled sql types, handled dbml types)"""
     from pydbml.renderer.base import BaseRenderer
+    from pydbml.renderer.sql.default import DefaultSQLRenderer
+    from pydbml.renderer.dbml.default import DefaultDBMLRenderer
     import pydbml.classes as C
     kinds = [C.Table, C.Column, C.Enum, C.EnumItem, C.Reference, C.TableGroup, C.Project, C.StickyNote, C.Index, C.Note, C.Expression]
-    handled = set(rng.sample(kinds, rng.randint(0, len(kinds) - 1)))
 
-    class Part(BaseRenderer):
-        model_renderers = {}
+    def make(base, tag):
+        handled = set(rng.sample(kinds, rng.randint(0, len(kinds) - 1)))
 
-        @classmethod
-        def render_db(cls, db):
-            return 'PARTDB'
-    for k in handled:
-        Part.renderer_for(k)(lambda model, k=k: f'<{k.__name__}>')
-    return Part, handled
+        class Part(base):
+            model_renderers = {}          # its own, incomplete handler table
+
+            @classmethod
+            def render_db(cls, db):
+                return 'PARTDB'
+        for k in handled:
+            Part.renderer_for(k)(lambda model, k=k: f'<{tag}:{k.__name__}>')
+        return Part, handled
+    ps, hs = make(rng.choice([BaseRenderer, DefaultSQLRenderer]), 'sql')
+    pd, hd = make(rng.choice([BaseRenderer, DefaultDBMLRenderer]), 'dbml')
+    return ps, pd, hs, hd
 
 
 def check_configured(sh, doc, text, rng, via):
@@ -205,14 +214,14 @@ def check_configured(sh, doc, text, rng, via):
                              f'{kind}.{what} was not rendered through the configured class (log: {len(log)} calls)', case)
     # partial renderers
     plog = []
-    Part, handled = partial_classes(rng, plog)
+    PartS, PartD, hs, hd = partial_classes(rng, plog)
     if via == 'parser':
-        db2, err = parse(text, allow_properties=doc.allow_properties, sql_renderer=Part, dbml_renderer=Part)
+        db2, err = parse(text, allow_properties=doc.allow_properties, sql_renderer=PartS, dbml_renderer=PartD)
     else:
-        db2 = apibuild.build(doc, sql_renderer=Part, dbml_renderer=Part)
+        db2 = apibuild.build(doc, sql_renderer=PartS, dbml_renderer=PartD)
     els = top_elements(db2) + [('column', c) for t in db2.tables for c in t.columns]
     for kind, el in els:
-        for what in ('sql', 'dbml'):
+        for what, handled in (('sql', hs), ('dbml', hd)):
             if not hasattr(type(el), what):
                 continue
             try:
@@ -220,7 +229,7 @@ def check_configured(sh, doc, text, rng, via):
             except Exception as e:  # noqa
                 sh.violation('partial', f'partial:raises:{kind}.{what}:{type(e).__name__}', f'{e}', case)
                 continue
-            want = f'<{type(el).__name__}>' if type(el) in handled else ''
+            want = f'<{what}:{type(el).__name__}>' if type(el) in handled else ''
             sh.count('obs.partial_checks')
             if got != want:
                 sh.violation('partial', f'partial:wrong-text:{kind}.{what}', f'got {got[:80]!r}, expected {want!r}', case)
